@@ -416,7 +416,8 @@ func (ro *RedisOutput) rdbReplay(ctx context.Context, pipe <-chan *rdb.BinEntry)
 			}
 
 			if ro.outFilter.FilterKey(util.BytesToString(e.Key)) ||
-				ro.outFilter.FilterSlot(util.BytesToString(e.Key)) {
+				ro.outFilter.FilterSlot(util.BytesToString(e.Key)) ||
+				isBisyncNamespaceKey(util.BytesToString(e.Key)) {
 				filterOut = true
 			}
 		}
@@ -769,6 +770,11 @@ func (ro *RedisOutput) parseAofCommand(replayQuit usync.WaitCloser, reader *bufi
 
 		newArgv, reject = ro.outFilter.FilterCmdKey(sCmd, argv)
 		if bypass || reject {
+			ro.filterCounterAdd(1)
+			continue
+		}
+		if touchesBisyncNamespace(bisyncAofCommand{Cmd: sCmd, Args: newArgv}) {
+			// bookkeeping of a bidirectional link found in the source is not business data
 			ro.filterCounterAdd(1)
 			continue
 		}
